@@ -124,6 +124,8 @@ def split_checks(rng, n_uniform=12, n_exp=6):
         D = rng.choice([300.0, 600.0])
         cut = -float(rng.choice([60, 120, 180, 240]))
         zs, zr = -float(rng.choice([30, 90, 150, 270])), -float(rng.choice([30, 100, 200, 290]))
+        if i % 4 == 3:
+            zr = zs                                  # both endpoints at exactly the same depth (one horizontal direct ray)
         rho = float(rng.choice([40, 150, 500]))
         ux, uy = rng.choice(AZ)
         x0, y0 = rng.choice(OFF)
@@ -148,6 +150,9 @@ def split_checks(rng, n_uniform=12, n_exp=6):
             if not m:
                 raise Divergence(where + ' unsplit solution reproduced', (float(r.path_length), float(r.tof)),
                                  [(float(s.path_length), float(s.tof)) for s in sols])
+            live = [s for s in m if abs(s.fresnel[0]) > 1e-9 or abs(s.fresnel[1]) > 1e-9]
+            if len(live) > 1:
+                raise Divergence(where + ' copies of one unsplit solution among the solutions of the split medium', 1, len(live))
             fs, fp = m[0].fresnel
             rs, rp = r.fresnel
             if not (abs(fs - rs) <= 1e-9 and abs(fp - rp) <= 1e-9):
@@ -166,8 +171,17 @@ def split_checks(rng, n_uniform=12, n_exp=6):
         src, dst = np.array([0.0, 0.0, zs]), np.array([rho, 0.0, zr])
         ref = SpecializedRayTracer(src, dst, AntarcticIce()).solutions
         lay = LayeredIce([AntarcticIce(valid_range=(cut, 0)), AntarcticIce(valid_range=(-2850, cut))])
-        sols = LayeredRayTracer(src, dst, lay).solutions
+        if i == n_exp - 1:
+            src, dst = np.array([0.0, 0.0, -20.0]), np.array([3000.0, 0.0, -30.0])          # shadow zone: no ray in the unsplit ice
+            ref = SpecializedRayTracer(src, dst, AntarcticIce()).solutions
+        ltr = LayeredRayTracer(src, dst, lay)
+        sols = ltr.solutions
         where = 'exponential ice split at %g: src=%s dst=%s' % (cut, list(src), list(dst))
+        if bool(ltr.exists) != (len(sols) > 0):
+            raise Divergence(where + ' exists', len(sols) > 0, bool(ltr.exists))
+        live = [s for s in sols if abs(s.fresnel[0]) > 1e-9 or abs(s.fresnel[1]) > 1e-9]
+        if not ref and live:
+            raise Divergence(where + ' solutions carrying amplitude where the unsplit ice has none', 0, len(live))
         for r in ref:
             m = [s for s in sols if abs(s.path_length - r.path_length) < 1e-4 * r.path_length and abs(s.tof - r.tof) < 1e-4 * r.tof]
             if not m:
